@@ -507,6 +507,20 @@ func runE2E(bin string, r *rng.R, configs int, outDir string) ([]string, []any, 
 				up.mu.Unlock()
 			}
 		}
+		// an https request whose CONNECT (made by the Transport) the upstream proxy refuses with 403 and fields:
+		// the refusal is relayed as the answer to a GET, so the response rules apply to it
+		{
+			c, err := net.DialTimeout("tcp", addr, time.Second)
+			if err == nil {
+				c.SetDeadline(time.Now().Add(5 * time.Second))
+				c.Write([]byte("GET https://fail.test/p HTTP/1.1\r\nHost: fail.test\r\n\r\n"))
+				first, rh, err := readHead(bufio.NewReader(c))
+				c.Close()
+				if err == nil && strings.Contains(first, " 403") {
+					emit("RespPlain", "RespPlain", up.respHead, rh, "client (relayed refusal of the proxy's own CONNECT)")
+				}
+			}
+		}
 		cmd.Process.Kill()
 		cmd.Wait()
 		l.Close()
